@@ -222,7 +222,7 @@ theorem emit_invariant_text_preserves (Γ : TEnv) (e : Expr) (τ : Ty) (hty : in
 /-- Non-vacuity: `not (self.a < 3) or self.b` is accepted by the inference for a class with an
 `int` property `a` and a `bool` property `b`, and is transpiled. -/
 example :
-    let D : Decls := ⟨[([67], .cls ⟨[([97], .prim .int), ([98], .prim .bool)], [], []⟩)], [], []⟩
+    let D : Decls := ⟨[([67], .cls ⟨[([97], .prim .int), ([98], .prim .bool)], [], [], []⟩)], [], []⟩
     let self := Expr.name PyEmit.selfName
     let e : Expr := .impl (.cmp (.member self [97]) .lt (.const (.int 3))) (.member self [98])
     inferC (TEnv.forSelf D [67]) e = .ok .bool ∧ noNan e = true ∧ ∃ x, transpile cfg0 [] e = .ok x := by
